@@ -208,8 +208,8 @@ def run_kind(pid, kind, seed, count, args="", binary="sfharness"):
     for i in range(shards):
         cf = os.path.join(d, "s%d.cases" % i)
         vf = os.path.join(d, "s%d.verdicts" % i)
-        cmd = "set -o pipefail; ulimit -v 8000000; export VERIF_CUTSMAX=%d; timeout 3000 %s gen %s %d %d %s > %s && %s < %s > %s" % (
-            CUTSMAX[0],
+        cmd = "set -o pipefail; ulimit -v %s; export VERIF_CUTSMAX=%d VERIF_GUARD_SCALE=%d; timeout 3000 %s gen %s %d %d %s > %s && %s < %s > %s" % (
+            "unlimited" if binary != "sfharness" else "8000000", CUTSMAX[0], 10 if binary != "sfharness" else 1,
             os.path.join(BUILD, binary), kind, seed * 64 + i, per, args, cf,
             os.path.join(BUILD, "sfmodel"), cf, vf)
         procs.append((subprocess.Popen(["bash", "-c", cmd], stderr=subprocess.PIPE, text=True), cf, vf))
